@@ -623,8 +623,9 @@ def run(c, facts):
     c.shared(R8, _c09.r1_marker, 'C09.R1', facts)
     import c04
     import c13 as _c13
-    R11 = c.rule('C03.R11', 'WRITE-VERBATIM: the text that must parse back to the same document is the text on disk: the CLI writes what the serializer produced, unchanged (shared with C13.R15)')
+    R11 = c.rule('C03.R11', 'WRITE-VERBATIM: the text that must parse back to the same document is the text on disk: the CLI writes what the serializer produced, unchanged, over a truncated file (shared with C13.R15, C13.R1)')
     c.shared(R11, _c13.r15_write_verbatim, 'C13.R15', facts)
+    c.shared(R11, _c13.r1_sole_writer, 'C13.R1', facts)      # ... and nothing of an older, longer document stays behind it
     c.run(r5_base_closed, facts)
     c.run(r6_operation_ids, facts)
     c.run(lambda c: c04.r5_status_conv(c, facts, rule='C03.R4'))
